@@ -288,11 +288,13 @@ func (u *Unreliable) Close() error {
 		return io.EOF
 	}
 	u.lifecycleMu.Unlock()
+	verifYield("Unreliable.Close.swapped")
 
 	if oldState == created {
 		close(u.stopInitiate)
 	}
 	<-u.initiateDone
+	verifYield("Unreliable.Close.initDone")
 
 	u.lifecycleMu.Lock()
 	defer u.lifecycleMu.Unlock()
@@ -322,6 +324,7 @@ func (u *Unreliable) Close() error {
 	u.recv.Close()
 
 	close(u.send.C)
+	verifYield("Unreliable.Close.sendClosed")
 
 	<-u.senderDone
 
